@@ -144,6 +144,40 @@ func runC17(r *core.Run) {
 		r.Cases++
 	}
 	r.Extra["values_formatted"] = values
+	runMarkerNames(r)
 	r.Extra["types"] = len(tables)
 	r.Assumptions = append(r.Assumptions, "the documented tables (spec/MC_EnumTables.tla) are the reference: names of the large tag-id maps are checked for totality only; camera-model families (Canon/Apple/Nikon/Sony model maps) are checked through CameraMake only")
+}
+
+// runMarkerNames: the names of the JPEG marker codes are formatted by a type that is not exported; the only public way
+// to them is the scanner's log line. A stream that carries a segment of EVERY marker code with a length field in front
+// of the quantisation table is scanned with the logger at trace level: the call must return as at the default level.
+func runMarkerNames(r *core.Run) {
+	d := []byte{0xFF, 0xD8}
+	for m := 0x02; m <= 0xFE; m++ {
+		if m == 0xDB || m == 0xC4 || (m >= 0xD0 && m <= 0xD9) { // DQT and DHT end the scan; RSTn/SOI/EOI carry no length
+			continue
+		}
+		d = append(d, 0xFF, byte(m), 0x00, 0x06, 1, 2, 3, 4)
+	}
+	d = append(d, 0xFF, 0xDB, 0x00, 0x43)
+	d = append(d, make([]byte, 65+64)...)
+	var ops []core.Op
+	for _, lvl := range []string{"", "trace:discard", "info:buf"} {
+		ops = append(ops, core.Op{ID: len(ops), Kind: "call", Data: d, Cut: -1, Args: callArgsJSON("ScanJPEG"), Level: lvl})
+	}
+	obs, err := core.RunOps(ops, core.WorkerOpts{Stall: 20 * time.Second})
+	if err != nil {
+		r.Machinery("worker: %v", err)
+		return
+	}
+	for i := range obs {
+		o := &obs[i]
+		r.Cases++
+		if o.Bad() {
+			r.Violate("enum:jpeg.marker:"+o.BadKind(), fmt.Sprintf("formatting the marker codes of a stream that carries every code (logger %q): %s %s%s", ops[i].Level, o.BadKind(), o.Panic, firstLines(o.Crash, 3)), replayOf(&ops[i], o, nil))
+		} else if o.Err != obs[0].Err {
+			r.Violate("enum:jpeg.marker:result", fmt.Sprintf("scan of a stream that carries every marker code returns %q with the logger at %s and %q at the default level", o.Err, ops[i].Level, obs[0].Err), replayOf(&ops[i], o, nil))
+		}
+	}
 }
